@@ -1,10 +1,10 @@
-CONSTANTS MaxOps = 2  Bug = ""  Emit = FALSE
-CONSTANT Geoms <- MCHistG
-CONSTANT Args <- MCArgsHist
+CONSTANTS MaxOps = 1  Bug = "PackWideMaskZero"  Emit = FALSE
+CONSTANT Geoms <- MCFewG
+CONSTANT Args <- MCArgsH
 CONSTANT Chars <- MCChars
 CONSTANT ColPairs <- MCColPairs
 CONSTANT FillCols <- MCFillCols
-CONSTANT VgaCols <- MCVgaColsH
+CONSTANT VgaCols <- MCVgaCols
 CONSTANT VgaFill <- MCVgaFill
 INIT Init
 NEXT Next
